@@ -365,6 +365,10 @@ def call_builtin(ex, st, name, args, kwargs, node):
         fv = z3.Int("nd%f")
         return VBool(z3.ForAll([fv], tables.tcount(t.comps[0], t.comps[1], as_int(args[1]), fv) <= 1,
                                patterns=[tables.tcount(t.comps[0], t.comps[1], as_int(args[1]), fv)]))
+    if name == "smul":
+        ex.lib_used.add("smul(q, w) = q*w by repeated addition (unfolding, monotone, non-negative: checked against q*w by "
+                        "CPython on every run)")
+        return VInt(TH.smul(as_int(args[0]), as_int(args[1])))
     if name in ("tcount", "tsize", "lcount"):
         from . import tables
         ex.lib_used.add("T-occ2 / T-rangesum counting functions (see pyvc/tables.py)")
@@ -705,7 +709,7 @@ def exec_with(ex, s, st):
 # ---------------------------------------------------------------------------------------------
 
 
-REAL_BUILTINS = {"f32", "ln", "exp_", "log2_", "pow_", "ceil_", "le_bytes", "be_bytes", "upd", "rem", "allkeys",
+REAL_BUILTINS = {"smul", "f32", "ln", "exp_", "log2_", "pow_", "ceil_", "le_bytes", "be_bytes", "upd", "rem", "allkeys",
                  "tcount", "tsize", "lcount", "nodup", "same", "undone_table", "undone_hand", "written", "f32_at", "byte_of", "f32_byte", "i32_at", "i64_at", "default_mode", "mode_of", "file_bytes", "file_exists", "resolve"}
 
 
